@@ -663,22 +663,55 @@ def translate(unix_src, ipc_src):
                     return int(re.sub(r"[ui](8|16|32|64|size)$", "", nums[-1][1]).replace("_", ""), 0)
         raise Untranslatable("%s(..) with literal not found" % callee)
 
-    attempt("EVENTS_CAPACITY", lambda: "Definition EVENTS_CAPACITY : Z := %d." % first_int_arg(toks, "with_capacity"))
+    def events_capacity():
+        # Events::with_capacity(N) - the capacity of the batch the poller hands back, not any other with_capacity in the file
+        vals = [t[1] for t in toks]
+        for i in range(len(vals) - 3):
+            if vals[i:i + 3] == ["Events", "::", "with_capacity"]:
+                return "Definition EVENTS_CAPACITY : Z := %d." % first_int_arg(toks[i + 2:], "with_capacity")
+        raise Untranslatable("Events::with_capacity(..) not found")
+    attempt("EVENTS_CAPACITY", events_capacity)
     attempt("LISTEN_BACKLOG", lambda: "Definition LISTEN_BACKLOG : Z := %d." % first_int_arg(toks, "listen"))
 
     # ipc.rs: the empty-region sentinel written by Serialize and tested by Deserialize
     def sentinel():
         it = tokenize(ipc_src)
         vals = [t[1] for t in it]
+
+        def resolve(ts, depth=0):
+            """usize::MAX, an integer literal, or a constant of the file that is (transitively) one of those"""
+            if depth > 4:
+                raise Untranslatable("sentinel: constant chain too long")
+            if ts[:3] in (["usize", "::", "MAX"], ["u64", "::", "MAX"]) and len(ts) == 3:
+                return "U.max"
+            if len(ts) == 1 and re.fullmatch(r"[0-9][0-9_]*(usize|u64)?", ts[0]):
+                return str(int(re.sub(r"(usize|u64)$", "", ts[0]).replace("_", "")))
+            if len(ts) == 1 and re.fullmatch(r"[A-Z_][A-Z0-9_]*", ts[0]):
+                for i in range(len(vals) - 5):
+                    if vals[i] == "const" and vals[i + 1] == ts[0] and vals[i + 2] == ":":
+                        j = vals.index("=", i)
+                        k = vals.index(";", j)
+                        return resolve(vals[j + 1:k], depth + 1)
+            raise Untranslatable("sentinel: %r" % ts[:6])
         ser = deser = None
         for i in range(len(vals) - 4):
             if vals[i:i + 2] == ["index", "=="]:
-                deser = vals[i + 2:i + 5]
-            if vals[i] == "else" and vals[i + 1] == "{" and vals[i + 2] in ("usize", "u64") and vals[i + 3] == "::":
-                ser = vals[i + 2:i + 5]
-        if ser != ["usize", "::", "MAX"] or deser != ["usize", "::", "MAX"]:
+                j = i + 2
+                while vals[j] != "{":
+                    j += 1
+                deser = vals[i + 2:j]
+            if vals[i] == "else" and vals[i + 1] == "{" and vals[i + 3] in ("::", "}") and (vals[i + 2] in ("usize", "u64") or re.fullmatch(r"[A-Z_][A-Z0-9_]*", vals[i + 2])):
+                j = i + 2
+                while vals[j] != "}":
+                    j += 1
+                if j - (i + 2) in (1, 3) and ".serialize" in "".join(vals[j:j + 4]).replace(" ", "") or vals[j + 1:j + 3] == [".", "serialize"]:
+                    ser = vals[i + 2:j]
+        if ser is None or deser is None:
             raise Untranslatable("sentinel: ser=%r deser=%r" % (ser, deser))
-        return "Definition EMPTY_REGION_SENTINEL : Z := U.max."
+        v1, v2 = resolve(ser), resolve(deser)
+        if v1 != v2:
+            raise Untranslatable("sentinel: written as %s, tested as %s" % (v1, v2))
+        return "Definition EMPTY_REGION_SENTINEL : Z := %s." % v1
     attempt("EMPTY_REGION_SENTINEL", sentinel)
 
     # the conversions of the back end's error into what the receive calls report (impl From<UnixError> for ipc::TryRecvError / ipc::IpcError):
@@ -856,7 +889,7 @@ def main():
     for name, text in out:
         if text is None:
             key = name[7:] if name.startswith("sizeof_") else name
-            pat = re.compile(r"^Definition (?:SIZEOF_)?%s(?:_safe)?\b.*?\.$" % re.escape(key), re.M | re.S)
+            pat = re.compile(r"^Definition (?:SIZEOF_)?%s(?:_safe|_closed|_errno)?\b.*?\.$" % re.escape(key), re.M | re.S)
             ms = pat.findall(pin)
             text = "(* pinned fallback: %s *)\n" % summary["fallback"][name].replace("*)", "* )") + "\n".join(ms)
         parts.append(text)
